@@ -62,7 +62,7 @@ def run(ck):
         raise Infra("only %d real messages were decoded" % kinds.get("DECSRC", 0))
     evs = [e for e in vlib.read_ndjson(traces[0])]
     enc = next(e for e in evs if e.get("k") == "ENC" and e["enc"] == "ok" and e["type"] == "CommonMsgInfo")
-    dec = next(e for e in evs if e.get("k") == "DECSRC")
+    dec = next(e for e in evs if e.get("k") == "DECSRC" and e["type"] == "Message" and e["unique"] and e["dec"] == "ok")
     ck.sample({"direction": "C->S", "event": cellcommon.slim(enc, 1200)})
     c1 = copy.deepcopy(enc); c1["tree"] = c1["tree"].replace("0", "1", 1) if c1["tree"][2] == "0" else c1["tree"][:2] + "0" + c1["tree"][3:]
     c2 = copy.deepcopy(dec); c2["tree2"] = c2["tree2"][:-3] + "0]}" if not c2["tree2"].endswith("0]}") else c2["tree2"] + "x"
